@@ -716,6 +716,11 @@ def c07_family(tier, n):
             fs.append(sink('end', ['join']))
             out.append(scn(f'bal2-join-out/{speeds}/{how}', fs))
 
+    # a joiner slower than its workers: frames of both workers wait at the joiner at the same time
+    for speeds in [(0, 0), (0, 40)]:
+        for js in [100, 250]:
+            out.append(scn(f'bal2-slowjoin/{speeds}/j{js}', balance(n + 2, speeds, split_period=0, join_ops=[('slow', js)])))
+
     out.append(scn('bal2/fast-splitter', balance(n, (40, 130), split_period=0)))
     out.append(scn('bal2/slow-splitter', balance(n, (0, 40), split_period=40)))
     out.append(scn('bal2/watcher', balance(n, (40, 0), watcher=True)))
